@@ -65,3 +65,8 @@ claim("C02", "exploration", E1,
       "Bounded-exhaustive over an explicit alphabet: dimensions {1..64} x three kinetic-energy kinds x diagonal (scales 1e-3..1e3, non-zero mean) and low-rank (ranks 0,1,2,d) transformations x step sizes of both signs x three densities x start points: one real leapfrog step vs an independent dense-matrix reference in the original space (textbook leapfrog / harmonic splitting / closed-form ESH), transformation round trip, gradient pull-back and log-determinant vs dense LU, forward+backward = identity, all {F,B} sequences up to length 4 (path independence), finite-difference Jacobian determinant, energy-error order, exact ExactNormal conservation, re-whitening after a transformation change.",
       "Trusted: the dense reference (refmodel.rs); values outside the alphabet are not covered; ill-conditioned cases (stiff quartic, saturated ESH update) are counted and only judged by the one-step comparison.",
       "bounded-exhaustive input enumeration + all short operation sequences against a dense reference model", "4/C02")
+
+claim("C01", "model_checking", E1,
+      "For every configuration of a finite grid (4 targets x identity/diagonal/low-rank transformations x Euclidean/ExactNormal x step sizes x start points/momenta x maxdepth) EVERY answer vector of the scripted RNG (doubling directions x accept/reject of every merge) of the real nuts::draw is executed and compared with the reference NUTS on the recorded trajectory; a second pass probes every accept threshold at p_ref(1 -+ 1e-9); the exact kernel rows are assembled and detailed balance pi(z)P(z->z') = pi(z')P(z'->z) is asserted against exhaustive re-runs from every reachable z'; mirrored direction sequences reproduce the same trajectory and stopping depth.",
+      "Trusted: R-nuts (common/rnuts.rs); the integrator (C02); the grid stands for the continuum; executions with a decision margin < 1e-7 are counted, not judged; depth <= 3 (4 thorough).",
+      "exhaustive choice-tree exploration of the real transition function over an owned RNG seam, lock-step reference model, exact detailed-balance check", "4/C01")
